@@ -176,7 +176,9 @@ func (mq *MessageQueue) runQueue() {
 						span.End()
 						mq.publishError(metadata, err)
 						mq.eventPublisher.Close(metadata.topic)
-					} else {
+					} else if !mq.hasQueuedMessages() {
+						// an empty message has nothing to report, but it must not hide
+						// the messages queued behind it: only stop when none is left
 						break
 					}
 				}
@@ -193,6 +195,12 @@ func (mq *MessageQueue) runQueue() {
 			return
 		}
 	}
+}
+
+func (mq *MessageQueue) hasQueuedMessages() bool {
+	mq.buildersLk.RLock()
+	defer mq.buildersLk.RUnlock()
+	return len(mq.builders) > 0
 }
 
 func (mq *MessageQueue) signalWork() {
